@@ -2,6 +2,7 @@
 //! Real writer -> real reader; FITS data rows compared with the extracted row/byte model
 //! (STSerial.encode2 + Serial.encode_rows; theorems C11_fits_rows_roundtrip, C11_bytes_roundtrip);
 //! re-serialising the decoded value must reproduce the same bytes.
+use crate::asciix;
 use crate::common::*;
 use crate::st::*;
 use moc::deser::ascii::moc2d_from_ascii_ivoa;
@@ -155,8 +156,8 @@ fn fits_checks<T: FitsSt>(rep: &mut Report, orc: &mut Oracle, m: &StMoc, w: u8, 
   }
 }
 
-fn text_checks(rep: &mut Report, m: &StMoc, case: &str) {
-  for fold in [None, Some(20usize), Some(80)] {
+fn text_checks(rep: &mut Report, orc: &mut Oracle, rng: &mut Rng, m: &StMoc, case: &str) {
+  for fold in [None, Some(0usize), Some(20), Some(80)] {
     for use_len in [false, true] {
       rep.evaluations += 1;
       rep.count("ascii");
@@ -178,6 +179,21 @@ fn text_checks(rep: &mut Report, m: &StMoc, case: &str) {
             rep.violation("ST ASCII write/read does not round-trip", &shown, &back.show(), &m.show(), "C11_text_roundtrip");
           } else if s1 != s2 {
             rep.violation("re-serialising the decoded ST-MOC (ASCII) does not reproduce the same bytes", &shown, &s2, &s1, "C11 (idempotent re-serialisation)");
+          }
+          // character-level tie with Model/AsciiCodec.v
+          rep.evaluations += 1;
+          rep.count("ascii2-writer-exact");
+          let req = format!("ASC2W t 64 s 64 116 115 {} {} {} {} {}", m.dt, m.ds, fold.map(|x| x.to_string()).unwrap_or("-".to_string()), use_len as u8, m.wire());
+          let model = orc.ask(&req);
+          let model_hex = model.split_whitespace().nth(1).unwrap_or("").to_string();
+          if !model.starts_with("OK") || asciix::hex(s1.as_bytes()) != model_hex {
+            rep.corr_break("moc2d_to_ascii_ivoa writes other characters than the character-level model", &format!("{} # {}", req, shown), &format!("{:?}", s1), &model, "src/deser/ascii.rs moc2d_to_ascii_ivoa == Model/AsciiCodec.v st_to_ascii (C11_ascii_st_roundtrip)");
+          }
+          asciix::compare_reader_2d(rep, orc, &s1, "written");
+          if fold == Some(20) && !use_len {
+            for d in asciix::mutations(rng, &s1, 3) {
+              asciix::compare_reader_2d(rep, orc, &d, "mutated");
+            }
           }
         }
         other => rep.violation("ST ASCII write/read fails", &shown, &format!("{:?}", other.map(|x| x.map(|y| y.0.show()))), &m.show(), "C11_text_roundtrip"),
@@ -223,6 +239,9 @@ pub fn run(ctx: &Ctx) -> Report {
   let mut orc = Oracle::spawn();
   let mut rng = Rng::new(ctx.seed);
   rep.rule = "valid ST-MOCs (0, 1, many elements; multi-range time parts; time indices in the highest usable bits = top of the time domain; unoccupied deepest levels: declared depths deeper than occupied) ; FITS v2 through both writers for u64, and for u32 / u16 when the depths fit (structure, data bytes vs row/byte model, read back, re-serialisation identical); ASCII x {fold None,20,80} x {a-b, a+len}; JSON x {fold None,40}. non-trivial = >= 1 element; distinct = distinct ST-MOC".to_string();
+  for doc in asciix::crafted_2d() {
+    asciix::compare_reader_2d(&mut rep, &mut orc, &doc, "crafted");
+  }
   let n = ctx.n(1_200, 50_000);
   for i in 0..n {
     let dt = *rng.pick(&[0u8, 3, 10, 13, 29, 61]);
@@ -233,7 +252,7 @@ pub fn run(ctx: &Ctx) -> Report {
     let mut m = if i == 0 { StMoc { dt, ds, elems: vec![] } } else { gen_stmoc(&mut rng, dt, ds, nslots, base, 4, 3) };
     let case0 = format!("STSER {}", m.show());
     fits_checks::<u64>(&mut rep, &mut orc, &m, 64, &case0);
-    text_checks(&mut rep, &m, &case0);
+    text_checks(&mut rep, &mut orc, &mut rng, &m, &case0);
     if dt <= 29 && ds <= 13 {
       fits_checks::<u32>(&mut rep, &mut orc, &narrow(&m, 32), 32, &case0);
     }
@@ -246,7 +265,7 @@ pub fn run(ctx: &Ctx) -> Report {
       m.ds = rng.range(ds as u64, 29) as u8;
       let case1 = format!("STSER {}", m.show());
       fits_checks::<u64>(&mut rep, &mut orc, &m, 64, &case1);
-      text_checks(&mut rep, &m, &case1);
+      text_checks(&mut rep, &mut orc, &mut rng, &m, &case1);
     }
     if !m.elems.is_empty() {
       rep.nontrivial(&case0);
